@@ -96,7 +96,9 @@ pub fn valid_field(m: &Meta, kind: FieldKind, b: &[u8]) -> bool {
         },
         FieldKind::KeSk => match rm::grp_of_ke(m.ke) {
             Some(g) => g.valid_scalar(b),
-            None => b.len() == 32 && b.iter().any(|x| *x != 0),
+            // X25519 private scalars live in [2^254, 2^255): zero and anything with bit 255 set are
+            // out of range; whether low bits must already be cleared is not judged here
+            None => b.len() == 32 && b.iter().any(|x| *x != 0) && b[31] & 0x80 == 0,
         },
         _ => true,
     }
@@ -255,8 +257,17 @@ pub fn invalid_encodings(m: &Meta, f: &Field, valid: &[u8], r: &mut TapeRng, ext
                 }
             }
             None => {
-                // Curve25519 private keys: the zero scalar
+                // Curve25519 private keys: the zero scalar and values >= 2^255
                 out.push(("zero".into(), vec![0u8; 32]));
+                let mut hb = valid.to_vec();
+                hb[31] |= 0x80;
+                out.push(("bit255-set(>=2^255)".into(), hb));
+                let mut top = vec![0u8; 32];
+                top[31] = 0xc0;
+                out.push(("2^255+2^254".into(), top));
+                let mut ff = vec![0xffu8; 32];
+                ff[0] = 0xf8;
+                out.push(("f8ff..ff(>=2^255)".into(), ff));
             }
         },
         _ => {}
